@@ -402,6 +402,48 @@ def run_B(case):
             import shutil
 
             shutil.rmtree(d, ignore_errors=True)
+        # ---- near-twin tables in one network (appended; own random stream): two LeakyReLUs on the same input whose slopes straddle a rounding boundary of one
+        # input code, so that the two tables differ in one or two entries only (-k against -(k+1), k = 0, 1, 2, 5).  Each operator must find its own table
+        # in the constants of the output file: whatever identifies equal tables for sharing must not identify these.
+        r2 = np.random.default_rng(np.random.SeedSequence([191920, case["seed"]]))
+        for u in range(max(2, case["ntables"] // 8)):
+            g = netgen.G(r2, "int8")
+            s_io = float(np.float32(r2.choice([1.0, 0.5, 0.05])))
+            k_ = int(r2.choice([0, 1, 1, 2, 5]))
+            q0 = int(r2.integers(20, 129))
+            ac = (k_ + 0.5) / q0
+            a1, a2 = float(np.float32(ac * (1 - 2e-3))), float(np.float32(ac * (1 + 2e-3)))
+            x = g.input([1, 2, 2, 4], s_io, 0)
+            y1 = g.unary("leaky_relu", x, s_io, 0, alpha=a1)
+            y2 = g.unary("leaky_relu", x, s_io, 0, alpha=a2)
+            net = g.finish([y1, y2], "lut-twins", "approx", 1)
+            d = os.path.join(case["sdir"], "bt%d_%d" % (case["seed"], u))
+            os.makedirs(d, exist_ok=True)
+            mp = os.path.join(d, "n.tflite")
+            open(mp, "wb").write(tflw.build(net))
+            del captured[:]
+            res = vc.run_inproc(mp, {"acc": ["ethos-u55-128", "ethos-u65-256", "ethos-u55-32"][u % 3], "mode": None, "optimise": "Performance", "allocator": "HillClimb"}, os.path.join(d, "o"))
+            import ethosu.vela.tensor as tmod
+
+            tmod.TensorAddressMap.clear_address_map()
+            tabs = [list(v_) for (_, v_, _) in captured if len(v_) == 256]
+            if res.ok() and len(tabs) >= 2:
+                ta, tb = tabs[-2], tabs[-1]
+                ndiff = sum(1 for a_, b_ in zip(ta, tb) if a_ != b_)
+                counters["twin_table_networks"] = counters.get("twin_table_networks", 0) + 1
+                if 0 < ndiff <= 4:
+                    counters["twin_tables_differing_in_few_entries"] = counters.get("twin_tables_differing_in_few_entries", 0) + 1
+                    m = fbr.RModel(open(res.out_path, "rb").read())
+                    consts = [bytes(T.data) for T in m.subgraphs[0].tensors if T.data is not None and len(T.data) >= 256]
+                    for which, tab in (("first", ta), ("second", tb)):
+                        raw = np.asarray(tab, dtype=np.int64).astype(np.int8).tobytes()
+                        if not any(raw in c_ for c_ in consts):
+                            mech = "lut-table:leaky_relu:near-twin-table-not-found-in-output-file"
+                            viol.setdefault(mech, {"mech": mech, "msg": "two LeakyReLU tables differing in %d entries (slopes %r / %r): the %s operator's table does not occur in the constants of the output" % (ndiff, a1, a2, which),
+                                                   "witness": {"alphas": [a1, a2], "scale": s_io, "differing_entries": [(i - 128, ta[i], tb[i]) for i in range(256) if ta[i] != tb[i]]}})
+            import shutil
+
+            shutil.rmtree(d, ignore_errors=True)
     finally:
         lutmod.create_lut_tensor = orig
     return {"violations": list(viol.values()), "counters": counters, "sets": {k: sorted(v) for k, v in sets.items()}, "keys": keys, "sample": sample}
